@@ -47,7 +47,7 @@ theorem C05_release_keeps (L : Layout) (hL : NoAbs L) (x : Sys) (hx : ReachableE
     ∀ m', m' ∈ (step L x.s (Event.released k)).1.active → y ∉ m'.to := by
   rw [step_released_accepted L x.s k hk] at hy ⊢
   have hs := hx.reachable.sinv
-  have hc := hx.consumed hL
+  have hc := hx.consumed
   have hev : (newlyRelease x.s k).2.events = (releaseKey x.s k).2 := rfl
   have hst : (newlyRelease x.s k).1 = (releaseKey x.s k).1 := rfl
   rw [hev, releaseKey_eq] at hy
@@ -226,7 +226,7 @@ theorem C05_keep (L : Layout) (hL : NoAbs L) (x : Sys) (hx : ReachableEv L x) (e
     y ∈ (x.next L (Op.ev e)).V ∧ Event.released y ∉ (step L x.s e).2.events := by
   have hs := hx.reachable.sinv
   have hn := hx.nainv hL
-  have hc := hx.consumed hL
+  have hc := hx.consumed
   have hnext := (hx.reachable.next (Op.ev e)).sinv
   -- y is a mapped key
   have hym : y ∈ x.s.mapped := by
@@ -275,7 +275,7 @@ theorem C05_keep (L : Layout) (hL : NoAbs L) (x : Sys) (hx : ReachableEv L x) (e
         have k1 := afterConsume_keeps (pressPrep x.s k) fm y h0 hym
         have k2 : Keeps y (afterConsume (pressPrep x.s k) fm) (addPhase2 (afterConsume (pressPrep x.s k) fm) k fm).1
             (addPhase2 (afterConsume (pressPrep x.s k) fm) k fm).2 := by
-          rw [addPhase2_clean k fm hc1]
+          rw [addPhase2_clean k fm hc1 (afterConsume_clear (pressPrep x.s k) fm)]
           cases isActionMapping fm
           · exact ⟨fun h => h, by simp⟩
           · exact ram_keeps _ y (hram _ rfl)
